@@ -96,6 +96,7 @@ def gen(ch):
     sc.close_handle = ch.weighted([3, 1, 1])
     # a lock object may well test false (say, __len__ = number of waiters): it is a lock all the same
     sc.lock_falsy = bool(sc.lock) and ch.chance(1, 4)
+    sc.lock_dual = bool(sc.lock) and ch.chance(1, 5)
     # backend B: the real asyncio.Lock and Task.cancel() (only meaningful with a lock)
     sc.backend = pick_backend(ch, 1, 4)
     return sc
@@ -147,7 +148,8 @@ async def consumer(ci, child, prog, st, sim):
             if prog.then == "close":
                 st.in_next[ci] = True  # a cancellation from here on passes through the child's aclose
                 st.closing[ci] = True
-                await child.aclose()
+                # (sometimes through what iter(child) gives - the way a tool handed the child would close it)
+                await (child.__aiter__() if prog.pauses[0] == 2 else child).aclose()
                 st.done[ci] = True
                 st.finished[ci] = "closed"
                 check_retention(st)
@@ -197,10 +199,18 @@ def execute(st_, ctx):
     world = World(sim)
     src = make_async_source(world, sc.src)
     lock = None
+    sync_side_used = []
     if sc.lock:
         lock_type = make_lock(sim, sc.lock_policy, sc.lock_acq_susp, sc.lock_rel_susp)
         if sc.lock_falsy:
             lock_type = type("FalsyLock", (lock_type,), {"__bool__": lambda self: False})
+        if sc.lock_dual:
+            # the lock also offers the blocking protocol (a thread-level side): for tasks the asynchronous side is the lock
+            def _sync_side(self, *exc):
+                sync_side_used.append(1)
+                return None
+
+            lock_type = type("DualLock", (lock_type,), {"__enter__": _sync_side, "__exit__": _sync_side})
         lock = lock_type()
     handle = lib().tee(src.obj, sc.n, lock=lock) if lock is not None else lib().tee(src.obj, sc.n)
     st = State()
@@ -303,6 +313,8 @@ def execute(st_, ctx):
             out.violate("C09.item_retained", (sig_lock,), dict(describe(), retention=repr(st.retention)))
         if lock is not None and (lock.owner is not None or lock.waiters):
             out.violate("C09.lock_not_free_at_quiescence", (sig_lock,), describe())
+        if sync_side_used:
+            out.violate("C09.lock_misused", (sig_lock, "blocking side of the lock used"), describe())
         if lock is not None and lock.misuse:
             out.violate("C09.lock_misused", (sig_lock, lock.misuse[0][0]), describe())
         live = [c for c in range(sc.n) if not st.done[c]]
